@@ -19,4 +19,18 @@ _compose_part("C07", "C07compose",
      "A panic inside GetMove (thinker goroutine: the real process would die) is `tpanic`; the harness prefixes the status with `stale-` once a GetMove call whose context was already cancelled on entry had any effect (fixes/C07-stale-thinker.diff makes such calls return at once)",
      ["composed: the searching player is a stub (its answer is an input of the schedule); Friendly's check-engine verdicts are inputs; clocks through the seams of harness/rewrite/playtak_friendly.json, playtak_taktician.json, playtak_bot.json",
       "composed: thinkers take moveLock in the order they were started (they are parked on the mutex one event apart) and everything in GetMove that does not wait happens at once (Tak.Compose.settle); other lock orders are covered by the theorems only",
-      "composed: the `level` chat command (replaces f.ai in mid-game), the opening-book wrapper and Friendly.GameOver's survey Tell are outside the composed model; no Tell lines are generated"])
+      "composed: chat commands that arrive as Shout lines (HandleChat), the opening-book wrapper and Friendly.GameOver's survey Tell are outside the composed model"])
+
+# Work package "botcompose2": Friendly's check engine threaded (Impl/BotCheck.lean); generator C07check runs the real waitUndo with the REAL f.check.
+_compose_part("C07", "C07check",
+     "CHECK ENGINE (sampled): a real Friendly whose game was started through the real NewGame (so f.check is the depth-3 EvaluateWinner engine NewGame builds), the record after a random playout on a 3x3 / 4x4 board, "
+     "then the real waitUndo(p) with the real engine, after every ply from the second on; compared with Tak.Compose.waitUndoK on Tak.Compose.minimaxChecker: whether the first analysis reports a win in one (value >= WinThreshold at depth <= 1), "
+     "how often the engine is consulted, and the decision when there is no win in one",
+     ["check engine: with a win in one the decision depends on the class of a depth-3 value searched with slide reduction (applied in zwSearch only) and history-ordered moves, which can depend on the move order the model does not mirror - that decision is not compared"])
+
+# Work package "botcompose2": chat lines during the game (the `level` command replaces f.ai in mid-game).
+_compose_part("C07", "C07compose",
+     "LEVEL COMMAND (sampled, same generator): one event in seven is a line `Tell <Opp|Kibitz> msg` delivered to the real PlayGame (level 1..14, 0, 99, max, junk, upper case, double blank, help, size, other words), with and without a search in progress; "
+     "the harness keeps the engine the real handleCommand built (its Depth is compared with the model's levelDepth) and puts a stub of the next build in its place, every stub reports which build it is; compared after every event in addition: "
+     "f.level, how often f.ai was rebuilt, the Depth of the engine built last, the build of the f.ai object the search in progress runs on, and the replies (class, addressee, level) in wire order with all other commands",
+     [])
